@@ -180,6 +180,54 @@ pub fn gen(args: &Args) {
         };
         w.emit(merge(&[ev, json!({"site": site_json(&site), "p": p.json()})]));
     }
+    // (4) ranges across the season without twilight (search-heavy policies), two different places back to back:
+    // every day of the range must still equal the single-date result
+    let n_season = if thorough { 400 } else { 40 };
+    for i in 0..n_season {
+        let north = r.chance(1, 2);
+        let lat = r.range(490_000, 640_000) * if north { 1 } else { -1 };
+        let lon = r.range(-1_800_000, 1_800_000);
+        let site = Site { dlat: 0, lat, lon, el: 0, gmt: natural_gmt(lon) };
+        let y = r.range(1600, 2398) as i32;
+        let mid = if north { ymd(y, 6, 21) } else { ymd(y, 12, 21) };
+        let base = mid + chrono::Duration::days(r.range(-75, 20));
+        let span = r.range(10, 70);
+        let e = base + chrono::Duration::days(span - 1);
+        let mut p = P::of_method(*[1usize, 2, 3, 5, 6][..].get((r.next() % 5) as usize).unwrap());
+        p.pol = if i % 3 == 0 { 6 } else { 5 };
+        let params = p.params();
+        let loc = site.location();
+        let dr = DateRange::from(base..=e);
+        let g = guarded(Duration::from_secs(60), move || {
+            let m = prayer_times_dt_rng(&params, loc, &dr);
+            let n = m.len() as i64;
+            let first = m.keys().next().map(|d| dn_of(*d)).unwrap_or(0);
+            let last = m.keys().next_back().map(|d| dn_of(*d)).unwrap_or(0);
+            let contig = n == 0 || last - first + 1 == n;
+            // single-date results computed on a fresh thread each (no state shared with the range call)
+            let mut eq = true;
+            for (d, v) in m.iter() {
+                let (pp, dd) = (params.clone(), *d);
+                let single = std::thread::spawn(move || prayer_times_dt(&pp, loc, dd, None)).join();
+                if single.map_or(true, |sv| sv != *v) {
+                    eq = false;
+                }
+            }
+            (n, first, last, contig, eq)
+        });
+        let ev = match g {
+            Guarded::Ret((n, first, last, contig, eq)) => json!({"ev": "rng", "out": "ret",
+                "s": dn_of(base), "e": dn_of(e), "n": n, "first": first, "last": last, "contig": contig, "eq": eq}),
+            Guarded::Panic(_) => json!({"ev": "rng", "out": "panic", "s": dn_of(base), "e": dn_of(e),
+                "n": 0, "first": 0, "last": 0, "contig": false, "eq": false}),
+            Guarded::Hang => {
+                hangs += 1;
+                json!({"ev": "rng", "out": "hang", "s": dn_of(base), "e": dn_of(e),
+                "n": 0, "first": 0, "last": 0, "contig": false, "eq": false})
+            }
+        };
+        w.emit(merge(&[ev, json!({"site": site_json(&site), "p": p.json(), "stratum": "season"})]));
+    }
     let n = w.finish();
     println!("{}", json!({"events": n, "hangs": hangs}));
     if hangs > 0 {
